@@ -30,7 +30,8 @@ def make_copy(prefix):
     return d
 
 
-def run_check(prop, tree, tier="quick", seed="0"):
+def run_check(prop, tree, tier="quick", seed=None):
+    seed = seed or os.environ.get("SELFTEST_SEED", "0")
     env = dict(os.environ, VERIF_REPO=tree, VERIF_SEED=seed)
     p = subprocess.run([os.path.join(ROOT, "run"), prop, "--tier", tier, "--no-insitu"], capture_output=True, text=True, env=env, timeout=3600)
     claims = ""
@@ -38,6 +39,10 @@ def run_check(prop, tree, tier="quick", seed="0"):
         if line.strip().startswith("claims:"):
             claims = line.strip()[:200]
             break
+    import re
+    m = re.search(r"\] (\d+) violating case\(s\)", p.stdout)
+    if m:
+        claims += f" [{m.group(1)} violating cases]"
     return p.returncode, claims, p.stdout[-800:]
 
 
